@@ -1,0 +1,120 @@
+//go:build verif
+
+package fontscan
+
+import (
+	"io"
+
+	"github.com/go-text/typesetting/font"
+	ot "github.com/go-text/typesetting/font/opentype"
+)
+
+// Accessors used by the external verification harness (build tag "verif").
+// They only forward to unexported functions; no behaviour is changed.
+
+// VerifIndex and VerifFileFootprints let an external package hold index values.
+type (
+	VerifIndex          = systemFontsIndex
+	VerifFileFootprints = fileFootprints
+)
+
+// VerifCoverages forwards to newCoveragesFromCmap.
+func VerifCoverages(cmap font.Cmap) (RuneSet, ScriptSet) {
+	rs, ss, _ := newCoveragesFromCmap(cmap, nil)
+	return rs, ss
+}
+
+// VerifFootprintFromFont forwards to newFootprintFromFont.
+func VerifFootprintFromFont(f *font.Font, location Location, md font.Description) Footprint {
+	return newFootprintFromFont(f, location, md)
+}
+
+// VerifFootprintFromLoader forwards to newFootprintFromLoader.
+func VerifFootprintFromLoader(ld *ot.Loader, isUserProvided bool) (Footprint, error) {
+	fp, _, err := newFootprintFromLoader(ld, isUserProvided, scanBuffer{})
+	return fp, err
+}
+
+// VerifUserProvided reads and VerifSetUserProvided writes the unexported flag of a footprint.
+func VerifUserProvided(fp Footprint) bool         { return fp.isUserProvided }
+func VerifSetUserProvided(fp *Footprint, b bool)  { fp.isUserProvided = b }
+func VerifRuneSetIncludes(a, b RuneSet) bool      { return a.includes(b) }
+func VerifRuneSetSerialize(rs RuneSet) []byte     { return rs.serialize() }
+func VerifScriptSetSerialize(ss ScriptSet) []byte { return ss.serialize() }
+func VerifLangSetSerialize(ls LangSet) []byte     { return ls.serialize() }
+
+func VerifRuneSetDeserialize(data []byte) (RuneSet, int, error) {
+	var rs RuneSet
+	n, err := rs.deserializeFrom(data)
+	return rs, n, err
+}
+
+func VerifScriptSetDeserialize(data []byte) (ScriptSet, int, error) {
+	var ss ScriptSet
+	n, err := ss.deserializeFrom(data)
+	return ss, n, err
+}
+
+func VerifLangSetDeserialize(data []byte) (LangSet, int, error) {
+	var ls LangSet
+	n, err := ls.deserializeFrom(data)
+	return ls, n, err
+}
+
+// VerifFootprintSerialize / VerifFootprintDeserialize forward to the footprint (de)serializers.
+func VerifFootprintSerialize(fp Footprint) []byte { return fp.serializeTo(nil) }
+func VerifFootprintDeserialize(data []byte) (Footprint, int, error) {
+	var fp Footprint
+	n, err := fp.deserializeFrom(data)
+	return fp, n, err
+}
+
+// VerifRetainsBestMatches runs retainsBestMatches on a font set made of the given aspects,
+// with every footprint as candidate.
+func VerifRetainsBestMatches(aspects []font.Aspect, query font.Aspect) []int {
+	fs := make(fontSet, len(aspects))
+	candidates := make([]int, len(aspects))
+	for i, a := range aspects {
+		fs[i].Aspect = a
+		candidates[i] = i
+	}
+	return fs.retainsBestMatches(candidates, query)
+}
+
+// VerifNewFileFootprints builds one entry of an index.
+func VerifNewFileFootprints(path string, modTime int64, footprints []Footprint) VerifFileFootprints {
+	return fileFootprints{path: path, modTime: timeStamp(modTime), footprints: footprints}
+}
+
+// VerifFileFootprintsParts returns the fields of one entry of an index.
+func VerifFileFootprintsParts(ff VerifFileFootprints) (path string, modTime int64, footprints []Footprint) {
+	return ff.path, int64(ff.modTime), ff.footprints
+}
+
+func VerifSerializeIndex(index VerifIndex, w io.Writer) error { return index.serializeTo(w) }
+func VerifDeserializeIndex(r io.Reader) (VerifIndex, error)   { return deserializeIndex(r) }
+func VerifSerializeIndexFile(index VerifIndex, path string) error {
+	return index.serializeToFile(path)
+}
+func VerifDeserializeIndexFile(path string) (VerifIndex, error) { return deserializeIndexFile(path) }
+
+// VerifScan forwards to scanFontFootprints.
+func VerifScan(logger Logger, current VerifIndex, dirs ...string) (VerifIndex, error) {
+	return scanFontFootprints(logger, current, dirs...)
+}
+
+// VerifRefresh forwards to refreshSystemFontsIndex.
+func VerifRefresh(logger Logger, cachePath string) (VerifIndex, error) {
+	return refreshSystemFontsIndex(logger, cachePath)
+}
+
+// VerifFlatten forwards to systemFontsIndex.flatten.
+func VerifFlatten(index VerifIndex) []Footprint { return index.flatten() }
+
+// VerifAppendFootprints adds footprints to the database of a font map, as UseSystemFonts does
+// with the system index.
+func (fm *FontMap) VerifAppendFootprints(fps ...Footprint) {
+	fm.appendFootprints(fps...)
+	fm.built = false
+	fm.lru.Clear()
+}
